@@ -3,6 +3,7 @@ package logger
 
 import (
 	"bytes"
+	"encoding/json"
 	"io"
 	"os"
 	"sync"
@@ -142,6 +143,15 @@ func writeLevel(buf *bytes.Buffer, level Level, useColor bool) {
 			buf.WriteString("ERR")
 		}
 	}
+}
+
+// writeJSONString writes s as a JSON string literal.
+// unlike strconv.Quote, it emits JSON escapes only and replaces invalid UTF-8 with U+FFFD.
+func writeJSONString(buf *bytes.Buffer, s string) {
+	enc := json.NewEncoder(buf)
+	enc.SetEscapeHTML(false)
+	enc.Encode(s)               //nolint:errcheck
+	buf.Truncate(buf.Len() - 1) // remove the newline added by Encode
 }
 
 // Log writes a log entry.
